@@ -43,6 +43,15 @@ def acquisition(run, fi):
         par = getattr(c, "_parent", None)
         if nm is not None and isinstance(par, (ast.GeneratorExp, ast.ListComp)):
             return st, nm, c
+    # ... or the acquisition was extracted into a helper that locks a whole collection and returns it
+    fx = facts(run)
+    for n in own_nodes(fi.node):
+        if isinstance(n, (ast.Assign, ast.AnnAssign)) and isinstance(getattr(n, "value", None), ast.Call) and assigned_name(n):
+            r = fx.resolve_call(fi, n.value)
+            if hasattr(r, "node") and not isinstance(r, type(None)) and getattr(r, "qualname", "") != fi.qualname:
+                inner = [c for c in calls_named(r.node, "lock_arr_writeability") if isinstance(getattr(c, "_parent", None), (ast.GeneratorExp, ast.ListComp))]
+                if inner and any(isinstance(x, ast.Return) for x in own_nodes(r.node)):
+                    return n, assigned_name(n), n.value
     raise AnalysisError(f"{fi.short}: cannot find the statement that locks the operation's inputs "
                         f"(expected `<coll> = C(lock_arr_writeability(x) for x in ...)`)")
 
